@@ -11,7 +11,7 @@ CHECKS["C18"] = dict(
     technique="TLA+ spec (Bisect.tla) checked by TLC; exhaustive TLC-exported table replayed into find_*; recorded random cases judged by TLC",
     text="Exhaustive within the stated bounds: TLC enumerates every sorted list of length 0-7 over a 5-value domain with 11 probes, "
          "checks the boundary laws of module Bisect, and exports the declaratively defined results; the real find_* must reproduce each one "
-         "under three order-embeddings. Seeded random float lists (with +-inf, +-0.0, subnormals, forced duplicates) are recorded from the real "
+         "under eight order-embeddings (ints, floats, huge floats, mixed int/float, epoch seconds a millisecond apart, datetimes a microsecond apart, strings). Seeded random float lists (with +-inf, +-0.0, subnormals, forced duplicates) are recorded from the real "
          "code and judged by TLC against the same operators. A pure function over a totally ordered domain depends only on the order pattern, "
          "so small-scope exhaustiveness is the right level.",
     note="Trusted: TLC's evaluation of set comprehensions; Python's int/float ordering; NaN is outside the domain.",
@@ -37,9 +37,9 @@ CHECKS["C17"] = dict(
     note="Trusted: real evaluation = Eval (C09); same callable object per abstract function id.",
     design_ref="DESIGN.md section 5, C17")
 
-_CORE_NOTE = ("Trusted: TLC; the plain theme (ranks -> real values) as an order-embedding, verified at start-up; the harness's independent CSV row decoder; "
+_CORE_NOTE = ("Trusted: TLC; the themes (ranks -> real values: plain, csv-hostile, bigint, seeded random tables) as order-embeddings, verified at start-up; the harness's independent CSV row decoder; "
               "user callables from the theme's fixed table. Bounded: 6 point templates / ~75 queries / MaxLen 3-4 for the exhaustive design check; "
-              "random histories of 10-80 calls over 3 tag keys, 3 field keys, 8 instants, 4 measurements; TLC paths to depth 3-4 plus simulated behaviours.")
+              "random histories of 10-80 calls over 3 tag keys, 3 field keys, 30 instants, 4 measurements, databases of up to a few thousand points, batches of several hundred; TLC paths to depth 3-4 plus simulated behaviours.")
 _CORE_TECH = "TLA+ spec TinyFlux.tla/Index.tla model-checked by TLC; TLC-generated paths replayed into tinyflux; recorded executions judged by TLC (Trace_TinyFlux.tla)"
 
 
